@@ -2,6 +2,7 @@ import HeimdallModel.Lemmas.Mech
 import HeimdallModel.Lemmas.MechTypes
 import HeimdallModel.Lemmas.MechHistory
 import HeimdallModel.Lemmas.MechTemplate
+import HeimdallModel.Lemmas.MechClient
 import HeimdallModel.Model.Footprint
 import HeimdallModel.Gen.Footprints
 /-!
@@ -594,5 +595,133 @@ theorem c17_shared_table_invisible_without_definitions (evs : List Tpl.TEv)
 
 example : ∀ s ∈ Tpl.newsOf [.new [.atom (.lit "a"), .atom (.field "Subject.ID")], .render 0 (fun _ => "u")],
     Tpl.defsOf s = [] := by decide +kernel
+
+/-! ## Executions leave something behind — in the object's own corner only
+
+An execution may have an effect that later executions see: the result a mechanism keeps for `cache_ttl`, the response
+its endpoint's HTTP cache layer keeps for `http_cache.default_ttl`.  `runHistSt` interleaves `Create…` calls with
+executions of the objects handed out so far, every object with a state of its own; an execution is
+`step (configuration the object stands for at that moment) inputs (the object's state)` for ANY function `step`.  In
+the model there is no other state an execution could read or write: no table of HTTP clients per process, no memo. -/
+
+/-- **What an execution does is decided by the object's own configuration and its own earlier executions, whatever
+else was created or executed before.**  In every history of creations and executions on one factory (any requests,
+for this or other catalogue entries, accepted or refused, executions of any objects in between), the record of an
+execution of the k-th object handed out is: the object `x` the k-th call handed out (`objectOf`: the prototype may be
+handed out under several numbers) and the outcome of `step` on the configuration the k-th request stands for when it is
+the only request the factory ever sees (`aloneEff`: the catalogue entry overlaid with the request's own `config`), in
+the state that the earlier executions OF THE SAME OBJECT — with their inputs, in their order — produce from the initial
+state when nothing else happens in the process (`stateAlone`). -/
+theorem c17_execution_depends_on_own_configuration_and_own_executions {Inp Out S : Type}
+    (step : Entries → Inp → S → Out × S) (σ₀ : Store Entries Override) (hcl : Closed σ₀) (s₀ : S)
+    (pre post : List (HEv Inp)) (k : Nat) (inp : Inp)
+    (hcat : ∀ r ∈ reqsOf pre, ∀ q, r.1 = some q → ∃ i : Inst, σ₀.insts[q]? = some i) :
+    (runHistSt step σ₀ [] (fun _ => s₀) (pre ++ .exec k inp :: post))[(execsOf pre).length]? =
+      some (k, inp, (objectOf σ₀ (reqsOf pre) k).bind fun x => ((reqsOf pre)[k]?).bind fun r =>
+        (aloneEff σ₀ r).map fun e =>
+          (x, (step e inp (stateAlone step e s₀ (inputsOf x (runHistSt step σ₀ [] (fun _ => s₀) pre)))).1)) := by
+  have h := runHistSt_kth step σ₀ hcl s₀ pre σ₀ [] [] (fun _ => s₀) (fun _ => []) (Extends.refl hcl)
+    (Answers.nil σ₀ σ₀) ⟨fun _ => rfl, fun _ hx => absurd rfl hx⟩ hcat post k inp
+  simpa [expected, objectOf] using h
+
+/-- the hypothesis at a history over `lookCat`: the prototype of the header finalizer is handed out twice (numbers 0
+and 2), a variant in between; `step` counts the executions of the object and shows its configuration.  The prototype
+is executed under both numbers: one object, one count; the variant has its own -/
+example : ((reqsOf (Inp := Unit) [.create (some 1, none), .create (some 1, some ovTwo), .create (some 1, none)]).all
+      fun r => match r.1 with
+        | some q => (lookCat.insts[q]?).isSome
+        | none => true) = true ∧
+    (runHistSt (fun eff (_ : Unit) (n : Nat) => ((eff.length, n), n + 1)) lookCat [] (fun _ => 0)
+      [.create (some 1, none), .exec 0 (), .create (some 1, some ovTwo), .exec 1 (), .create (some 1, none), .exec 2 (),
+       .exec 1 (), .exec 0 (), .exec 3 ()]).map (fun x => (x.1, x.2.2)) =
+      [(0, some (1, 1, 0)), (1, some (2, 1, 0)), (2, some (1, 1, 1)), (1, some (2, 1, 1)), (0, some (1, 1, 2)), (3, none)] := by
+  decide +kernel
+
+/-- **The endpoint of a mechanism receives what the object's own settings mean.**  In every process that executes
+mechanism objects in any order, each request through an HTTP client built from the settings of the object's own
+endpoint (the code: `Endpoint.CreateClient` builds a client per request), the number of requests the upstream sees for
+an execution of the k-th object is that of its own n-th execution in a process where nothing else is executed, `n` =
+the number of its executions so far. -/
+theorem c17_upstream_requests_are_those_of_the_object_alone (objs : List Client.Obj) (pre post : List Nat) (k : Nat) :
+    (Client.runOwn objs (fun _ => {}) (pre ++ k :: post))[pre.length]? =
+      some ((objs[k]?).map fun o => Client.callsAlone o (pre.filter (· = k)).length) := by
+  have h := Client.runOwn_kth objs pre (fun _ => 0) (fun _ => {}) (fun _ _ _ => rfl) post k
+  simpa using h
+
+/-- what the own settings mean, closed form: on an upstream that answers, the first execution asks once, and the
+second one is answered without asking iff the mechanism keeps its result (`cache_ttl`) or the HTTP cache layer of ITS
+endpoint is enabled, the request is a GET without payload and ITS `default_ttl` says for how long to keep a response
+without freshness information -/
+theorem c17_second_execution_reuses_iff_own_settings (o : Client.Obj) (hb : o.busy = false) :
+    Client.callsAlone o 0 = 1 ∧
+    (Client.callsAlone o 1 = 0 ↔
+      (o.mechTtl = true ∨
+        (o.client.cache = true ∧ o.get = true ∧ o.body = false ∧ Client.positive o.client.ttl = true))) ∧
+    (Client.callsAlone o 1 = 0 ∨ Client.callsAlone o 1 = 1) := by
+  obtain ⟨⟨retry, cache, ttl⟩, peer, get, body, busy, mechTtl⟩ := o
+  simp only at hb
+  subst hb
+  generalize hp : Client.positive ttl = pos
+  cases cache <;> cases get <;> cases body <;> cases mechTtl <;> cases pos <;>
+    simp [Client.callsAlone, Client.stAfter, Client.exec, Client.execWith, Client.roundTrip, Client.attempts,
+      Client.Obj.cacheable, hp]
+
+/-- … and on an upstream that answers 503 to everything every execution asks once, or six times iff ITS endpoint has
+`retry` — nothing is kept -/
+theorem c17_busy_upstream_sees_own_retry_setting (o : Client.Obj) (hb : o.busy = true) (n : Nat) :
+    Client.callsAlone o n = if o.client.retry.isSome then 6 else 1 := by
+  simp only [Client.callsAlone, Client.stAfter_busy o hb n, Client.exec, Client.execWith, Client.roundTrip,
+    Client.attempts, hb]
+  cases o.mechTtl <;> cases o.client.cache <;> cases o.client.retry <;> simp
+
+/-- **A table of clients per process is invisible iff its key says everything a client is built from.**  A process
+that files the client it builds under `key (settings, peer)` and uses the client filed first under a key for everybody
+who comes later (NOT the code) yields, on every history, the upstream requests of the process with own clients — as
+long as two settings filed under one key build clients that do the same. -/
+theorem c17_client_memo_invisible_if_key_determines_client {K : Type} [DecidableEq K]
+    (key : Client.Settings × String → K) (objs : List Client.Obj)
+    (hk : ∀ a b p q, key (a, p) = key (b, q) → ∀ o st, Client.execWith a o st = Client.execWith b o st)
+    (st : Nat → Client.St) (evs : List Nat) :
+    Client.runMemo key objs [] st evs = Client.runOwn objs st evs :=
+  Client.runMemo_eq_runOwn key objs hk evs [] st (fun _ he => by cases he)
+
+/-- the hypothesis holds for the key that is the settings themselves -/
+example : ∀ (a b : Client.Settings) (p q : String), (fun x : Client.Settings × String => x.1) (a, p) =
+    (fun x : Client.Settings × String => x.1) (b, q) → ∀ o st, Client.execWith a o st = Client.execWith b o st := by
+  intro a b p q h o st
+  simp only at h
+  rw [h]
+
+/-- the demonstration of the seeded defect: two mechanisms on one host, `profile` keeps responses for an hour,
+`status` enables the HTTP cache without a default ttl; `patient` retries, `hasty` does not, their upstream is busy -/
+def cProfile : Client.Obj := ⟨⟨none, true, "\"1h\""⟩, "SERVER", true, false, false, false⟩
+def cStatus : Client.Obj := ⟨⟨none, true, ""⟩, "SERVER", true, false, false, false⟩
+def cPatient : Client.Obj := ⟨⟨some "{\"give_up_after\":\"5ms\",\"max_delay\":\"1ms\"}", false, ""⟩, "SERVER", true, false, true, false⟩
+def cHasty : Client.Obj := ⟨⟨none, false, ""⟩, "SERVER", true, false, true, false⟩
+
+/-- the hypotheses of the two closed forms at these objects -/
+example : cProfile.busy = false ∧ cStatus.busy = false ∧ cPatient.busy = true ∧ cHasty.busy = true ∧
+    Client.callsAlone cProfile 1 = 0 ∧ Client.callsAlone cStatus 1 = 1 ∧ Client.callsAlone cPatient 3 = 6 := by
+  decide +kernel
+
+/-- own clients: `status` asks every time, `profile` once, in both orders; `patient` six times, `hasty` once -/
+example : Client.runOwn [cProfile, cStatus, cPatient, cHasty] (fun _ => {}) [0, 1, 1, 0, 2, 3, 3, 2] =
+      [some 1, some 1, some 1, some 0, some 6, some 1, some 1, some 6] ∧
+    Client.runOwn [cProfile, cStatus] (fun _ => {}) [1, 0, 0, 1] = [some 1, some 1, some 0, some 1] := by
+  decide +kernel
+
+/-- the key of the seeded defect: peer name, retry settings, whether the HTTP cache is enabled — not `default_ttl` -/
+def seededKey (x : Client.Settings × String) : String × Option String × Bool := (x.2, x.1.retry, x.1.cache)
+
+/-- **A table of clients keyed without `default_ttl` breaks it** (the seeded defect): after `profile` has been
+executed `status` is answered from the cache for an hour, in the other order `profile` never reuses anything — neither
+is what the object does alone; and a key that is the peer name only makes `hasty` as patient as `patient` -/
+example : seededKey (cProfile.client, "SERVER") = seededKey (cStatus.client, "SERVER") ∧
+    Client.runMemo seededKey [cProfile, cStatus] [] (fun _ => {}) [0, 1, 1, 0] = [some 1, some 1, some 0, some 0] ∧
+    Client.runMemo seededKey [cProfile, cStatus] [] (fun _ => {}) [1, 0, 0, 1] = [some 1, some 1, some 1, some 1] ∧
+    (Client.runMemo seededKey [cProfile, cStatus] [] (fun _ => {}) [0, 1, 1])[2]? ≠
+      some (some (Client.callsAlone cStatus 1)) ∧
+    Client.runMemo (fun x => x.2) [cPatient, cHasty] [] (fun _ => {}) [0, 1] = [some 6, some 6] := by
+  decide +kernel
 
 end Heimdall.Props.C17
